@@ -99,6 +99,17 @@ def run(ctx: Ctx) -> None:
            msg="parse_file does not pass its encoding on to CxxParser: the file is opened with the default encoding whatever the caller asked for", node=pfc, mod=sm)
     icfg = pm.cfg("__init__")
     from ..booleval import UNKNOWN as _U, ev as _ev, paths_to as _pt
+
+    def _consts(modname: str, fn_: ast.AST) -> Dict[str, Any]:
+        """module-level string constants (own or imported) a function mentions, for constant propagation"""
+        out = {}
+        F_ = repo.folder(modname)
+        for x in ast.walk(fn_):
+            if isinstance(x, ast.Name) and isinstance(x.ctx, ast.Load) and x.id.isupper() and F_.has(x.id):
+                v_ = F_.get(x.id)
+                if isinstance(v_, (str, int, type(None))):
+                    out[x.id] = v_
+        return out
     open_nodes = [n for n in icfg.nodes for c in n.calls() if isinstance(c.func, ast.Name) and c.func.id == "open"]
     ok = len(open_nodes) == 1
     why = "expected exactly one open() in CxxParser.__init__"
@@ -109,10 +120,10 @@ def run(ctx: Ctx) -> None:
         fn_ok = bool(oc.args) and norm(oc.args[0]) in ("filename", "self.filename")
         # the codec the file is opened with, for a caller-chosen encoding and for none (constant propagation along the paths)
         given = set()
-        for env in _pt(icfg, open_nodes[0], {"encoding": "<E>"}, lambda x: None):
+        for env in _pt(icfg, open_nodes[0], {"encoding": "<E>", **_consts("parser", init)}, lambda x: None):
             v = _ev(enc, env, lambda x: None) if enc is not None else None
             given.add("?" if v is _U else v)
-        for env in _pt(icfg, open_nodes[0], {"encoding": None}, lambda x: None):
+        for env in _pt(icfg, open_nodes[0], {"encoding": None, **_consts("parser", init)}, lambda x: None):
             v = _ev(enc, env, lambda x: None) if enc is not None else None
             d2.add("?" if v is _U else v)
         ok = fn_ok and given == {"<E>"}
@@ -201,7 +212,7 @@ def run(ctx: Ctx) -> None:
         if e is None:
             vals.add("<process default>")
         else:
-            for env in paths_to(g, n, {"encoding": None}, lambda x: None):
+            for env in paths_to(g, n, {"encoding": None, **_consts(m.name, f)}, lambda x: None):
                 v = bev(e, env, lambda x: None)
                 vals.add("<not constant>" if v is UNKNOWN else ("<process default>" if v is None else v))
         defaults[label] = (vals, n, m)
@@ -358,14 +369,24 @@ def run(ctx: Ctx) -> None:
                 c = c.operand
                 lab = "T" if lab == "F" else "F"
             return (norm(c), lab)
-        deps = [canon(d.cond, lab) for d, lab in icfg2.control_deps(apps[0]) if d.loop is None and d.cond is not None]
+        # a nested helper that returns the declared default (factory-aware) stands for the local `default`
+        dflt_helpers = {f_.name for f_ in ast.walk(nr) if isinstance(f_, ast.FunctionDef) and "default_factory()" in norm(f_) and ".default" in norm(f_).replace(".default_factory", "")}
+
+        def canon2(c, lab):
+            t, l_ = canon(c, lab)
+            t = t.replace("dataclasses.is_dataclass(", "is_dataclass(")
+            for h_ in dflt_helpers:
+                t = t.replace(f"{h_}(f)", "default")
+            return (t, l_)
+        deps = [canon2(d.cond, lab) for d, lab in icfg2.control_deps(apps[0]) if d.loop is None and d.cond is not None]
         want = {("is_dataclass(o)", "T"), ("f.repr and f.compare", "T"), ("v != default", "T")}
         extra = set(deps) - want
         missing = want - set(deps)
         ok = not extra and not missing
         why = f"a field is emitted under {sorted(deps)}; required exactly {sorted(want)}"
     ctx.ob("R20.5", "gentest:nondefault_repr|skip conditions", ok, msg=why + ": a field whose value differs from its declared default would be omitted (or a default one printed), so the repr no longer reconstructs an equal object", node=inner, mod=gt)
-    ok = "f.default_factory is not MISSING" in txt and "default = f.default_factory()" in txt and "default = f.default" in txt
+    wtxt = norm(nr).replace("dataclasses.MISSING", "MISSING")
+    ok = "f.default_factory is not MISSING" in wtxt and "f.default_factory()" in wtxt and ("= f.default" in wtxt.replace("= f.default_factory", "") or "return f.default" in wtxt.replace("return f.default_factory", ""))
     ctx.ob("R20.5", "gentest:nondefault_repr|declared default is factory-aware", ok, msg="the declared default is not taken from default_factory() when one exists", node=inner, mod=gt, nontrivial=False)
     ctx.ob("R20.5", "gentest:nondefault_repr|qualified class name", "__qualname__" in txt, msg="the class name printed is not the qualified name", node=inner, mod=gt, nontrivial=False)
 
